@@ -675,7 +675,12 @@ func checkCase(which string, idx int, c *Case) hlib.Result {
 			}
 			var parts, places []string
 			seen := map[string]bool{}
-			for _, m := range c.Cms {
+			for mi, m := range c.Cms {
+				if which == "c21" && j != mi {
+					// C21 knows which comment is missing: its place alone names the cause
+					places = append(places, modelPlace(c, m.B).String()+":"+cmKindName(m.K))
+					continue
+				}
 				pl := modelPlace(c, m.B)
 				places = append(places, pl.String()+":"+cmKindName(m.K))
 				if cs := pl.cause(cmKindName(m.K)); !seen[cs] {
